@@ -185,6 +185,8 @@ def run(ctx):
             return name, None, out
         uh = glob.glob(os.path.join(vlib.REPO, "regression", "run", name, "*.h*")) + \
             glob.glob(os.path.join(vlib.REPO, "regression", "run", os.path.basename(y)[:-5], "*.h*"))
+        if name == "gen-c-generic":
+            uh = [os.path.join(os.path.dirname(y), "gentot.h")]
         return name, check_dir(ctx, od, name, uh), out
     jobs = list(todo)
     # generated library in both languages and with F_CFI
@@ -196,6 +198,18 @@ def run(ctx):
         yp = os.path.join(gd, tag + ".yaml")
         yaml.safe_dump(lib, open(yp, "w"), sort_keys=False)
         jobs.append((tag, yp, []))
+    # a C library (Fortran binds the user's functions directly) whose fortran_generic entries change the TYPE and the RANK of an
+    # argument: every extra interface bound to the same C function must still declare the C function's own parameter types
+    open(os.path.join(gd, "gentot.h"), "w").write("double total(const double *values, int nvalues);\nvoid scale(float *values, int nvalues, float by);\n")
+    totlib = {"library": "gentot", "language": "c", "c_header": "gentot.h", "options": {"wrap_python": False, "wrap_lua": False},
+              "declarations": [{"decl": "double total(const double *values, int nvalues)",
+                                "fortran_generic": [{"decl": "(const float *values+rank(1))"}, {"decl": "(const double *values+rank(1))"},
+                                                    {"decl": "(const double *values+rank(2))"}]},
+                               {"decl": "void scale(float *values +intent(inout), int nvalues, float by)",
+                                "fortran_generic": [{"decl": "(float *values+rank(1)+intent(inout))"}, {"decl": "(float *values+rank(2)+intent(inout))"}]}]}
+    yp = os.path.join(gd, "gen-c-generic.yaml")
+    yaml.safe_dump(totlib, open(yp, "w"), sort_keys=False)
+    jobs.append(("gen-c-generic", yp, []))
     allnotes = []
     with ThreadPoolExecutor(vlib.NCPU) as ex:
         for name, res, out in ex.map(one, jobs):
